@@ -2,6 +2,7 @@ package rules
 
 import (
 	"fmt"
+	"go/token"
 	"os"
 	"sort"
 	"strings"
@@ -145,4 +146,82 @@ func sameOrigins(ff *core.FuncFacts, a, b ssa.Value) bool {
 		}
 	}
 	return true
+}
+
+// checkIdCounterMonotone: an id-allocating counter only ever grows.  Record keys and
+// per-record addresses are derived from the id, so a writer that can lower the counter lets
+// a later allocation re-use the id (key, address) of a record that is still live: two
+// records then share one address and their holdings and debts mix.  Every consensus writer
+// outside genesis stores Get()+1.
+func checkIdCounterMonotone(P *core.Program, R *core.Report, rule, setKey, getSuffix string, subjects map[*ssa.Function]bool) {
+	sc := P.Fn(setKey)
+	if sc == nil {
+		R.Add(rule, setKey, "function", "-", false, "unresolved anchor")
+		return
+	}
+	n := 0
+	for _, e := range P.CG().In[sc] {
+		if !subjects[e.Caller] {
+			continue
+		}
+		ck := P.Key(e.Caller)
+		if strings.HasSuffix(ck, ".InitGenesis") || strings.Contains(ck, "/migrations.") {
+			continue
+		}
+		c, ok := e.Site.(ssa.CallInstruction)
+		if !ok {
+			continue
+		}
+		n++
+		ff := P.Facts(e.Caller)
+		args := c.Common().Args
+		v := ff.Fwd(args[len(args)-1])
+		// `rec.Id = Get()+1; Set(rec.Id)` on a heap record: take the value stored into the same
+		// field earlier in the block, provided the record is not handed to a call in between
+		if ld, ok := v.(*ssa.UnOp); ok && ld.Op == token.MUL {
+			if li, ok := ssa.Value(ld).(ssa.Instruction); ok {
+				blk := li.Block()
+				var val ssa.Value
+				for _, in := range blk.Instrs {
+					if in == li {
+						break
+					}
+					switch x := in.(type) {
+					case *ssa.Store:
+						if sameLocation(ff, x.Addr, ld.X) {
+							val = x.Val
+						}
+					case ssa.CallInstruction:
+						if fa, ok := ld.X.(*ssa.FieldAddr); ok {
+							for _, a := range x.Common().Args {
+								if a == fa.X {
+									val = nil
+								}
+							}
+						}
+					}
+				}
+				if val != nil {
+					v = ff.Fwd(val)
+				}
+			}
+		}
+		good := false
+		if bo, ok := v.(*ssa.BinOp); ok && bo.Op == token.ADD {
+			x, k := bo.X, bo.Y
+			if _, isK := x.(*ssa.Const); isK {
+				x, k = k, x
+			}
+			if kc, ok := k.(*ssa.Const); ok && kc.Value != nil && kc.Value.ExactString() == "1" {
+				good = ff.AllOrigins(x, nil, func(o core.Origin) bool {
+					return o.Kind == "call" && strings.HasSuffix(o.Name, getSuffix)
+				})
+			}
+		}
+		R.Add(rule, ck, "writes id counter "+setKey, P.Pos(P.InstrPos(c)), good,
+			"an id counter is only ever advanced (stored value = "+getSuffix+"() + 1): ids, record keys and per-record addresses derived from it are never handed out twice")
+	}
+	if n == 0 {
+		R.Add(rule, setKey, "writers", "-", false, "no consensus writer of the id counter found (anchor changed)")
+	}
 }
